@@ -180,16 +180,67 @@ def evaluate_repo_capture(spec):
             "labels": ["repo-capture", "quic" if "quic" in spec["file"] else "tls"], "key": engine.spec_hash(spec)}
 
 
+def evaluate_long_flow(spec):
+    """component level: the TLS output builder fed with a very long record list (more than 2^28 bytes in one direction); sequence and
+    acknowledgement numbers are read from the scapy objects (nothing is serialised) and must continue gap-free all the way"""
+    from scapy.layers.inet import TCP
+    from scapy.packet import Raw
+    from tlexport.output_builder import OutputBuilder
+
+    class P:
+        def __init__(self, ts):
+            self.timestamp = ts
+
+    class R:
+        def __init__(self, ts, k):
+            self.metadata = [P(ts + j * 1e-6) for j in range(k)]
+    big = bytes(spec["size"])
+    recs = []
+    for i in range(spec["n"]):
+        srv = (i % spec["every"] != 0) == bool(spec["mostly_server"])
+        recs.append((big if i % 97 else big[:spec["size"] // 3 + i % 5], R(1.7e9 + i * 1e-3, 1 if i % 50 else 3), srv))
+    v6 = spec["v6"]
+    ob = OutputBuilder(recs, "2001:db8::1" if v6 else "192.168.1.1", "2001:db8::2" if v6 else "10.0.0.1", 443, 40000, b"\x02" * 6, b"\x04" * 6, {}, v6, True)
+    out = ob.build()
+    nxt = {True: 1, False: 1}
+    total = {True: 0, False: 0}
+    for n, (pkt, ts) in enumerate(out[3:]):
+        t = pkt[TCP]
+        srv = t.sport == 443
+        ln = len(pkt[Raw].load) if Raw in pkt else 0
+        if t.seq != nxt[srv] & 0xFFFFFFFF:
+            return {"sig": "long flow: sequence number does not continue the stream", "detail": f"packet {n}: seq {t.seq}, expected {nxt[srv] & 0xFFFFFFFF} after "
+                    f"{total[srv]} bytes ({'server' if srv else 'client'}, {'IPv6' if v6 else 'IPv4'})", "nontrivial": True}
+        if t.ack != nxt[not srv] & 0xFFFFFFFF:
+            return {"sig": "long flow: acknowledgement number inconsistent", "detail": f"packet {n}: ack {t.ack}, expected {nxt[not srv] & 0xFFFFFFFF}", "nontrivial": True}
+        nxt[srv] += ln
+        total[srv] += ln
+    want = {True: sum(len(r[0]) for r in recs if r[2]), False: sum(len(r[0]) for r in recs if not r[2])}
+    if total != want:
+        return {"sig": "long flow: bytes lost or duplicated", "detail": f"{total} vs {want}", "nontrivial": True}
+    return {"sig": None, "nontrivial": max(total.values()) > (1 << 28), "labels": ["long-flow", "v6" if v6 else "v4", ">2^28" if max(total.values()) > (1 << 28) else "<=2^28"],
+            "key": engine.spec_hash(spec)}
+
+
+def long_flow_specs(tier):
+    out = [{"n": 17200, "size": 16384, "every": 50, "mostly_server": 1, "v6": False}, {"n": 17200, "size": 16384, "every": 40, "mostly_server": 0, "v6": True}]
+    if tier != "quick":
+        out += [{"n": 34000, "size": 16384, "every": 2, "mostly_server": 1, "v6": False}, {"n": 60000, "size": 16384, "every": 90, "mostly_server": 1, "v6": True}]
+    return out
+
+
 def stages(tier):
     quick = tier == "quick"
     return [
         Stage("repo-captures", evaluate_repo_capture, specs=repo_capture_specs()),
+        Stage("long-flow", evaluate_long_flow, specs=long_flow_specs(tier), chunksize=1),
         Stage("split-grid", evaluate_grid, specs=grid_specs(tier)),
         Stage("any-capture", evaluate_any, strategy=lambda t: any_spec(), examples=1200 if quick else 30000),
     ]
 
 
-RULE = ("validity predicate only (no expected bytes); stage repo-captures applies it to every real TLS / QUIC capture shipped with the repository; "
+RULE = ("validity predicate only (no expected bytes); stage long-flow feeds the TLS output builder with > 2^28 bytes per direction (component level, "
+        "sequence / acknowledgement numbers read from the packet objects); stage repo-captures applies it to every real TLS / QUIC capture shipped with the repository; "
         "predicate: strict pcapng reader, strict Ethernet/IPv4/IPv6/TCP/UDP frame parser with length and checksum "
         "verification, strict TCP reassembler (SYN, SYN/ACK, ACK, then gap-free non-overlapping sequence space with consistent ACKs); stage "
         "split-grid enumerates (record length n = 0..40, 255, 256, 1400, 16384) x (number k = 1..min(n+5,12) of input segments carrying the record) "
